@@ -260,23 +260,41 @@ Definition elem_inst (d : design) (x : inst) (ps : list (name * Z)) (knm : Z * n
                     c' <- array_elem_conn (i_n x) w (snd c) (fst knm) ;; Ok (fst c, c')) (i_conns x) ;;
   Ok {| i_name := snd knm; i_n := 0; i_of := i_of x; i_conns := cs |}.
 
-Fixpoint flatten_arrays (d : design) (arrs : list inst) (avoid : list name) : result (list inst) :=
+(* the names of the new Instances: arrays in the order they are dissolved, the namespace grows with every name *)
+Fixpoint array_names (arrs : list inst) (avoid : list name) : result (list (list name)) :=
   match arrs with
   | [] => Ok []
   | x :: r =>
       let av := remove_name (i_name x) avoid in                       (* module.namespace.pop(name) *)
       nms <- name_elems (i_name x) (Z.to_nat (i_n x)) 0%N av ;;
-      ps <- target_ports d (i_of x) ;;
-      els <- traverse (elem_inst d x ps) (combine (iota (Z.to_nat (i_n x)) 0 1) nms) ;;
-      rest <- flatten_arrays d r (av ++ nms) ;;
-      Ok (els ++ rest)
+      rest <- array_names r (av ++ nms) ;;
+      Ok (nms :: rest)
   end.
 
+Definition expand_array (d : design) (xn : inst * list name) : result (list inst) :=
+  let x := fst xn in
+  ps <- target_ports d (i_of x) ;;
+  traverse (elem_inst d x ps) (combine (iota (Z.to_nat (i_n x)) 0 1) (snd xn)).
+
+(* while module.instarrays: popitem() -- the array added last goes first *)
+Definition dissolved (m : module) : list inst := rev (filter (fun x => negb (single x)) (m_insts m)).
+
 Definition arrays_module (d : design) (m : module) : result module :=
-  (* while module.instarrays: popitem() -- the array added last goes first *)
-  new <- flatten_arrays d (rev (filter (fun x => negb (single x)) (m_insts m))) (namespace m) ;;
+  tbl <- array_names (dissolved m) (namespace m) ;;
+  new <- traverse (expand_array d) (combine (dissolved m) tbl) ;;
   Ok {| m_name := m_name m; m_ports := m_ports m; m_sigs := m_sigs m;
-        m_insts := filter single (m_insts m) ++ new; m_leaves := m_leaves m |}.
+        m_insts := filter single (m_insts m) ++ concat new; m_leaves := m_leaves m |}.
+
+(* the terminal correspondence: element e of array i is the Instance named by the pass (i_e, or its fresh variant) *)
+Definition elem_rename (m : module) (ie : pelem) : pelem :=
+  match array_names (dissolved m) (namespace m) with
+  | Ok tbl =>
+      match find (fun xn : inst * list name => String.eqb (i_name (fst xn)) (fst ie)) (combine (dissolved m) tbl) with
+      | Some xn => (nth (Z.to_nat (snd ie)) (snd xn) (fst ie), 0)
+      | None => ie
+      end
+  | Error _ => ie
+  end.
 
 Definition arrays_design (d : design) : result design := map_modules (arrays_module d) d.
 
